@@ -374,11 +374,17 @@ for _v in ('v311', 'v5'):
       bounds='CONNACK (accepted, session present symbolic) received by a *connected* persistent %s client with one stored QoS1 PUBLISH in flight' % _v, symbolic='i, session present, timer configuration',
       encodes=['process_recv_%s_connack' % ('v3_1_1' if _v == 'v311' else 'v5_0')])
 
+K('c02_v311_connect', {}, est=300, stubs=_st, mem='L',
+  bounds='v3.1.1 CONNECT through the builder: 1-byte client id, keep-alive (all u16), clean flag; without and with 1-byte user name and password', symbolic='4 bytes, keep-alive, clean',
+  encodes=['v3_1_1::Connect::{builder,build,size,to_buffers,to_continuous_buffer,parse}'])
+K('c02_v311_subscribe_family', {}, est=300, stubs=_st, mem='L',
+  bounds='v3.1.1 SUBSCRIBE / SUBACK / UNSUBSCRIBE through the builders with one 1-byte entry, id all u16, QoS / return code symbolic', symbolic='2 bytes, id',
+  encodes=['v3_1_1::{GenericSubscribe,GenericSuback,GenericUnsubscribe}', 'SubEntry', 'SubOpts'])
 # v5.0 codec harnesses follow the same scheme as the steps (global unwind 2 + whitelist)
 CODEC_UWS = STEP_UWS + [(r'verif_harness', 24), (r'8property', 3)]
 LONG_UWS = STEP_UWS + [(r'verif_harness', 140), (r'8property', 3), (r'mqtt_string|mqtt_binary|arc_payload', 140), (r'memcmp|compare_bytes|SlicePartialEq|5slice3cmp', 140)]
 for _h in HARNESSES:
-    if _h['file'] == 'codec' and (_h['name'].startswith(('c02_v5_', 'c04_v5_')) or _h['name'] in ('c04_subscribe_family_prefixes', 'c04_suback_family_prefixes', 'c04_v311_connect_prefixes', 'c03_numeric_tables')):
+    if _h['file'] == 'codec' and (_h['name'].startswith(('c02_v5_', 'c04_v5_')) or _h['name'] in ('c04_subscribe_family_prefixes', 'c04_suback_family_prefixes', 'c04_v311_connect_prefixes', 'c03_numeric_tables', 'c02_v311_connect', 'c02_v311_subscribe_family')):
         _h['uws'] = LONG_UWS if 'props12' in _h['name'] else CODEC_UWS
 for _n in ('c09_f3_overlong_rl', 'c02_string_new_n3'):
     for _h in HARNESSES:
@@ -411,7 +417,7 @@ for _c, _ns in _MEM.items():
 # (overrides the per-harness `props` given above: one place to see what each property's check runs)
 QUICK = {
     'C02': ['c02_vbi_all_u32', 'c02_string_new_n3', 'c02_v311_puback', 'c02_v311_pubrel', 'c02_v311_connack', 'c02_fixed_two_byte_packets', 'c02_v311_publish_q1',
-            'c02_v5_puback', 'c02_v5_publish_q1', 'c02_v5_connack_disconnect_auth'],
+            'c02_v5_puback', 'c02_v5_publish_q1', 'c02_v5_connack_disconnect_auth', 'c02_v311_connect', 'c02_v311_subscribe_family'],
     'C03': ['c03_numeric_tables', 'c02_vbi_all_u32', 'c02_string_new_n3', 'c02_v311_puback', 'c02_v311_connack', 'c02_fixed_two_byte_packets', 'c02_v311_publish_q1',
             'c02_v5_puback', 'c02_v5_publish_q1', 'c02_v5_connack_disconnect_auth', 'c18_values_fixed_width'],
     'C04': ['c04_vbi_decode_all', 'c04_string_decode_n6', 'c04_binary_decode_n6', 'c04_v311_puback_n4', 'c04_v311_connack_n3', 'c02_fixed_two_byte_packets',
